@@ -189,6 +189,7 @@ type StructSpec struct {
 	Params string // its parameters, e.g. "(γ : Type)" ("" = none)
 	LeanT  string // the type expression used for values, e.g. "Ctx γ" ("" = Lean)
 	Derive string // deriving clause ("" = DecidableEq, Repr, Inhabited)
+	OptIn  bool   // the Go type is this struct only in functions that list it in UseStructs (elsewhere it is opaque)
 	Fields []FieldSpec
 	Extra  []string // extra Lean fields "name : Type := default"
 }
@@ -232,6 +233,7 @@ type FnSpec struct {
 	DeferRecover bool
 	PnIndex      int
 	NoPureIf     bool // keep the plain `if` emission for this function
+	UseStructs   []string // opt-in struct types (Go names) this function works on
 	// Prologue: Lean do-statements at the start of the body; RetExtra/RetExtraT: extra values (Lean terms and
 	// types) returned in front of the Go results (e.g. the threaded abstract state of modelled callees)
 	Prologue  []string
@@ -493,7 +495,7 @@ func (g *gen) goT(ty types.Type) T {
 	case *types.Named:
 		name := u.Obj().Name()
 		if u.Obj().Pkg() != nil {
-			if ss := g.structByGo[u.Obj().Pkg().Name()+"."+name]; ss != nil {
+			if ss := g.structByGo[u.Obj().Pkg().Name()+"."+name]; ss != nil && (!ss.OptIn || g.curOptIn[name]) {
 				return T{"struct", ss.typeExpr()}
 			}
 		}
@@ -742,6 +744,13 @@ func (t *tr) call(c *ast.CallExpr, stmt bool) ([]string, []T) {
 			}
 			return nil, nil
 		}
+	}
+	if callee == "goutil.Panicf" || callee == "panic" {
+		if !t.mayPanic {
+			t.fail(c, "panic in a function classified as non-panicking")
+		}
+		t.emit("throw Panic.value")
+		return nil, nil
 	}
 	ext := t.findExt(callee)
 	wildArg := ""
@@ -1476,6 +1485,9 @@ func (t *tr) pureIf(x *ast.IfStmt) ([]string, bool) {
 			if id, ok := y.Fun.(*ast.Ident); ok && (id.Name == "panic" || id.Name == "delete") {
 				escapes = true
 			}
+			if calleeText(t.p, y.Fun, t.recvName) == "goutil.Panicf" {
+				escapes = true
+			}
 			callee := calleeText(t.p, y.Fun, t.recvName)
 			ext := t.findExt(callee)
 			if ext == nil {
@@ -1920,6 +1932,9 @@ func mayPanicBody(p *pkgInfo, g *gen, spec *FnSpec, fd *ast.FuncDecl, recvName s
 				res = true
 			}
 			callee := calleeText(p, x.Fun, recvName)
+			if callee == "goutil.Panicf" {
+				res = true
+			}
 			for _, e := range append(append([]Ext{}, spec.Exts...), g.globalExts...) {
 				if e.Callee == callee && e.MayPanic {
 					res = true
@@ -2010,6 +2025,7 @@ type gen struct {
 	fnByKey    map[string]*fnInfo // pkg|recv|func
 	globalExts []Ext
 	curTypes   map[string]T
+	curOptIn   map[string]bool
 	out        bytes.Buffer
 	report     []map[string]any
 }
@@ -2134,7 +2150,11 @@ func (g *gen) emitStructs() {
 func (g *gen) translate(fi *fnInfo) {
 	spec := fi.spec
 	g.curTypes = spec.Types
-	defer func() { g.curTypes = nil }()
+	g.curOptIn = map[string]bool{}
+	for _, n := range spec.UseStructs {
+		g.curOptIn[n] = true
+	}
+	defer func() { g.curTypes = nil; g.curOptIn = nil }()
 	p := g.pkg(spec.Pkg)
 	fd := p.findFunc(spec.Recv, spec.Func)
 	name := spec.Func
@@ -2198,9 +2218,7 @@ func (g *gen) translate(fi *fnInfo) {
 			for _, f := range fd.Type.Params.List {
 				for _, n := range f.Names {
 					ty := g.goT(t.typeOf(n))
-					if _, variadic := f.Type.(*ast.Ellipsis); variadic {
-						t.fail(f, "variadic parameter")
-					}
+					// a variadic parameter is a slice inside the function
 					if ty.Kind == "bad" {
 						t.fail(f, "parameter %s of unsupported type %s", n.Name, p.text(f.Type))
 					}
@@ -2455,6 +2473,8 @@ func endsInReturn(s ast.Stmt) bool {
 	return false
 }
 
+// the translated functions of a struct that is used through a pointer elsewhere keep their own receiver type
+
 func assignedIdents(b *ast.BlockStmt) map[string]bool {
 	res := map[string]bool{}
 	ast.Inspect(b, func(n ast.Node) bool {
@@ -2563,6 +2583,7 @@ const preamble = `/-
   receiver that writes to it returns the new receiver first.
 -/
 import RuxModel.Go.Rt
+import RuxModel.Generated.Facts
 set_option linter.unusedVariables false
 namespace Rux.Gen
 open Rux
